@@ -136,6 +136,15 @@ def handle_events(sol_tuple, events, consts, direction, is_terminal, attributes)
             down = down | (falls & ~decided)
             decided = decided | (rises ^ falls)
 
+    undecided = success & ~(up | down)
+    if D.ar_numpy.any(undecided):
+        # every probe around a certified root sits at rounding level (short steps far from t = 0, noisy event functions):
+        # the sign change over the step itself, which bracketed the root, gives the direction
+        g = D.ar_numpy.stack([ev_f[idx](t_prev) for idx in range(len(ev_f))])
+        g_new = D.ar_numpy.stack([ev_f[idx](t_next) for idx in range(len(ev_f))])
+        up = up | (undecided & __rises(g, g_new))
+        down = down | (undecided & __rises(-g, -g_new))
+
     up = success & up
     down = success & down
     either = up | down
